@@ -15,6 +15,7 @@
 #include "cmi_coroutine.h"
 
 extern uint64_t probe_call(void *(*fn)(void *), void *arg, const uint64_t in[6], uint32_t mxcsr_in, uint64_t out[6], uint32_t *mxcsr_out);
+extern uint64_t probe_idflag_in, probe_flags_out;     /* RFLAGS.ID set before the probed call / RFLAGS found after it */
 extern uint64_t probe_switch(void **old, void **new_, void *ret, const uint64_t in[6], uint32_t mxcsr_in, uint64_t out[6], uint32_t *mxcsr_out);
 extern void *probe_entry(struct cmi_coroutine *, void *);
 extern void probe_exit_entry(void *);
@@ -88,7 +89,9 @@ static bool do_switch(int me, struct sw *s)
     budget--;
     vr_fp_mix((uint64_t)(s->kind * 31 + (tgt + 1)));
     void *(*fn)(void *) = s->kind == 0 ? sw_resume : s->kind == 1 ? sw_transfer : s->kind == 2 ? sw_yield : sw_start;
+    uint64_t idf = vr_chance(&R, 1, 2) ? 0x200000u : 0; probe_idflag_in = idf;
     uint64_t ret = probe_call(fn, s, in, mi, out, &mo);
+    { uint64_t fo = probe_flags_out; if ((fo & 0x200000u) != idf) { vr_violation("C03/flags", "API level: coroutine %d had RFLAGS.ID=%d before the switch and %d when it continued", me, idf != 0, (fo & 0x200000u) != 0); return false; } }
     /* ---- we are running again (possibly much later) */
     if (cur != me) { vr_violation("C03/wrong-continuation", "coroutine %d continued although control was handed to %d", me, cur); return false; }
     if (!check_regs(in, out, mi, mo, "API level", me)) return false;
@@ -225,7 +228,9 @@ static bool raw_switch(int me, int tgt, bool tgt_new)
     uint64_t tok = ++tokctr * 0xd1342543de82ef95ull;
     rexp_tok = tok; rexp_tgt = tgt; rexp_new = tgt_new; rcur = tgt; budget--;
     vr_fp_mix((uint64_t)(tgt + 1) * 131 + (uint64_t)(me + 1));
+    uint64_t idf = vr_chance(&R, 1, 2) ? 0x200000u : 0; probe_idflag_in = idf;
     uint64_t ret = probe_switch(sp_of(me), sp_of(tgt), (void *)tok, in, mi, out, &mo);
+    { uint64_t fo = probe_flags_out; if ((fo & 0x200000u) != idf) { vr_violation("C03/flags", "mechanism level: context %d had RFLAGS.ID=%d before the switch and %d when it continued", me, idf != 0, (fo & 0x200000u) != 0); return false; } VR_CNT("flag_probes"); }
     if (rcur != me || rexp_tgt != me) { vr_violation("C03/wrong-continuation", "raw context %d continued, target was %d", me, rexp_tgt); return false; }
     if (!check_regs(in, out, mi, mo, "mechanism level (direct assembly switch)", me)) return false;
     if (raw_exit_seen && me == MAIN) { raw_exit_seen = false; if (ret != rexp_tok) { vr_violation("C03/message", "raw: main received %#" PRIx64 " expected %#" PRIx64, ret, rexp_tok); return false; } return true; }
